@@ -53,13 +53,28 @@ multiplication; again constructs only):
   * an EXTERN target (`{"extern": true}`: `Uint::split_mul`) is a Section Variable `lx_<name>` of the generated file that returns
     (value, trace): its trace is spliced in like that of any callee; the instrumented definitions that call it take it as their
     first argument and the theorems state what they ASSUME of its trace as an explicit hypothesis.
+Mirrored from the later extensions of rs2v.py (Uint::cmp, Int comparisons, byte / hex / primitive conversions, NonZero / Odd constructors, safegcd
+kernels; constructs only):
+  * signed machine integers (i8 / i64 / i128), byte slices `&[u8]`, `&str` read as its UTF-8 bytes, `[T; k]` and arrays of arrays: values only;
+    an index into any of them is an `ev_ix` (x[i][j]: the outer index, then the inner one); `x[i] = e` on a `[T; k]` / UnsatInt: right-hand side,
+    index, store, as for a limb array;
+  * a call through a type alias of the crate (`U64::from_u64(x)`, rs2v's call_at) is spliced like any other call;
+  * `let (a, mut b) = (e1, 0);` : the components left to right;
+  * a nested function item `fn min(a, b) -> T { .. }` is a local function that returns (value, trace), its own trace starting empty; a call of it
+    is spliced like a call of a translated function (a branch inside it is an `ev_br` of the caller's trace at the position of the call);
+  * `let x = <untyped integer expression>;` (typed by the first typed use of x, as in rs2v.py): the expression is translated at that use, but its
+    text AND every binding it hoists (calls, events) stand at the position of the `let`;
+  * `loop { A; if c { break; } B }` at the top level of a function body: the function takes (fuel : nat) first and returns
+    option (value * trace): `match loop_ fuel (fun st => .. ((state, tr), true|false)) (state, tr) with None => None | Some st => .. Some (v, tr) end`;
+    every `if c { break; }` is an `ev_br c`, once per iteration (so the trip count is visible in the trace); None when fuel iterations do not
+    reach the `break` (no trace then). Such a function cannot be called by translated code (as in rs2v.py).
 Anything rs2v.py cannot translate is an ill-typed stub here too (`Definition l_f : unit := tt.`), so the proofs about it fail.
 """
 import os, sys, json, re
 sys.path.insert(0, os.path.dirname(os.path.abspath(__file__)))
 import rs2v
 from rs2v import (TErr, lex, P, translate, find_const, parse_type, coq_type, dummy, cgname, is_generic, SELFTY, CONST_SIGS,
-                  MUTS, MUTPOS, MUTRET, FREE_GENERIC, CG, Emitter, fv, mutrefs, EXT_USERS, CUR_GROUP)
+                  MUTS, MUTPOS, MUTRET, FREE_GENERIC, CG, Emitter, fv, mutrefs, EXT_USERS, CUR_GROUP, Untyped, FILE_ALIASES, file_aliases)
 
 def lname(g):
     """g_<name> -> l_<name>; x_<name> (an extern target: a Section Variable of the generated file) -> lx_<name>"""
@@ -96,6 +111,21 @@ class LeakEmitter(Emitter):
     # ---- expressions: the effectful nodes
     def emit(self, e, env, exp=None):
         k = e[0]
+        if k == 'var' and e[1] in self.deferred and e[1] in env and env[e[1]] is None and self.isint(exp) and exp not in ('choice', 'limb'):
+            # first typed use of `let x = <untyped integer expression>;` : the expression is translated now, at the type of the use,
+            # but its text AND the bindings it hoists (calls, events) stand at the position of the `let` (placeholder D<id>)
+            env[e[1]] = exp
+            did, dex, denv = self.deferred.pop(e[1])
+            saved = self.pre; self.pre = []
+            dc, dt = self.emit(dex, denv, exp)
+            self.unify(dt, exp, 'the untyped `let %s`' % e[1])
+            self.deferred_txt[did] = self.flush() + 'let v_%s := %s in\n  ' % (e[1], dc)
+            self.pre = saved
+            return 'v_' + e[1], exp
+        if k == 'call' and len(e[1]) == 1 and isinstance(env.get(e[1][0]), tuple) and env[e[1][0]][0] == 'localfn':
+            # a call of a nested function item: it returns (value, trace) like any translated function; spliced in at the call
+            c, t = Emitter.emit(self, e, env, exp)
+            return self.hoist_call(c, t)
         if k == 'index':
             c, t = self.emit(e[1], env, None)
             ic, it = self.emit(e[2], env, 'u64')
@@ -179,6 +209,10 @@ class LeakEmitter(Emitter):
         if mut_ok:
             return c, rty                                  # the statement binds (value, buffers, trace) itself
         return self.hoist_call(c, rty)
+    def call_at(self, key, args, env, k):
+        # a call through a type alias of the crate (`U64::from_u64(x)`): spliced like any other call
+        c, rty = Emitter.call_at(self, key, args, env, k)
+        return self.hoist_call(c, rty)
     def bound_effects(self, n, r):
         """the bindings hoisted while the bound of a loop was translated (self.pre[n:]); r = (counters, iteration count) or None.
         Uses of translated associated constants (compile-time constants: `Self::LOG2_BITS`) are kept -- spliced ONCE in front of
@@ -204,8 +238,9 @@ class LeakEmitter(Emitter):
         s = Emitter.set_var(self, name, rhs, env)
         return self.flush() + s
     def set_idx(self, name, ix, rhs, env):
-        if env.get(name) not in ('arr', 'slice', 'warr'): raise TErr('index assignment to %s' % name)
-        c, t2 = self.emit(rhs, env, 'u64' if env[name] == 'warr' else 'limb')
+        fix = isinstance(env.get(name), tuple) and env[name][0] == 'fixarr'
+        if env.get(name) not in ('arr', 'slice', 'warr', 'unsat') and not fix: raise TErr('index assignment to %s' % name)
+        c, t2 = self.emit(rhs, env, env[name][1] if fix else 'u64' if env[name] in ('warr', 'unsat') else 'limb')
         ic, it = self.emit(ix, env, 'u64')
         s = Emitter.set_idx(self, name, ('raw', ic, it), ('raw', c, t2), env)
         self.event('(ev_ix %s)' % ic)
@@ -213,6 +248,17 @@ class LeakEmitter(Emitter):
     # ---- statements (rs2v.Emitter.stmts with the trace threaded through; same cases in the same order)
     def ttup(self, vs):
         return ', '.join(['v_' + v for v in vs] + ['tr'])
+    def loop_body(self, b, env, tup):
+        """body of a `loop`: every `if c { break; }` at its top level is a branch on c (ev_br), evaluated once per iteration"""
+        for j, x in enumerate(b):
+            if x[0] == 'if' and x[2] == [('break',)] and x[3] is None:
+                pre = self.stmts(b[:j], env, None, '')
+                cc, ct = self.emit(x[1], env, 'bool')
+                if ct != 'bool': raise TErr('if condition of type %s' % (ct,))
+                self.event('(ev_br %s)' % cc)
+                pre += self.flush()
+                return pre + 'if %s then ((%s), true) else\n  %s' % (cc, tup, self.loop_body(b[j + 1:], env, tup))
+        return self.stmts(b, env, None, '((%s), false)' % tup)
     def stmts(self, ss, env, rty, tail, top=False):
         """`tail` closes a non-returning block: the state tuple WITH the trace as last component"""
         out = ''
@@ -268,9 +314,55 @@ class LeakEmitter(Emitter):
                     out += self.flush() + "let '(%s, t_%d) := %s in\n  let tr := tr ++ t_%d in\n  " % (self.tup(names), k, c, k)
             elif s[0] == 'expr':
                 raise TErr('expression statement not supported')
+            elif s[0] == 'fn':
+                # nested function item: a local function that returns (value, trace); its own trace starts empty
+                ptys = [parse_type(ts, self.selfty) for _, ts in s[2]]
+                if s[3] is None: raise TErr('nested function without a return type')
+                frt = parse_type(s[3], self.selfty)
+                save = self.ret_t
+                fb = self.stmts(s[4], dict(zip([n for n, _ in s[2]], ptys)), frt, None)
+                self.ret_t = save
+                env[s[1]] = ('localfn', ptys, frt)
+                out += 'let v_%s := (fun %s => let tr := (nil : list Z) in\n  %s) in\n  ' % (s[1], ' '.join('(v_%s : %s)' % (n, coq_type(t)) for (n, _), t in zip(s[2], ptys)), fb)
+            elif s[0] == 'loop':
+                # `loop { A; if c { break; } B }` at the top level of the function body: loop_ fuel step state with the trace as the last
+                # component of the state; the function returns option (value * trace): None when `fuel` iterations do not reach the break
+                if not top or not self.has_loop: raise TErr('`loop` outside the function body block')
+                b = s[1]
+                vs = [v for v in self.assigned(b, []) if v in env]
+                if not vs: raise TErr('loop that assigns nothing')
+                tup = self.ttup(vs)
+                env2 = dict(env)
+                body = self.loop_body(b, env2, tup)
+                for v in vs:
+                    env[v] = env2[v]; self.const0[v] = False
+                for v in env:
+                    if env[v] is None: env[v] = env2.get(v)
+                rest = self.stmts(ss[i + 1:], env, rty, tail, top)
+                return out + "match loop_ fuel (fun st => let '(%s) := st in\n  %s) (%s) with\n  | None => None\n  | Some st => let '(%s) := st in\n  Some (%s)\n  end" % (tup, body, tup, tup, rest)
+            elif s[0] == 'let' and s[2] is None and s[1][0] == 'tup' and s[3][0] == 'tuple' and len(s[1][1]) == len(s[3][1]):
+                # `let (a, mut b) = (e1, 0);` : components left to right; an untyped literal takes its type from the first typed use
+                parts = [self.emit(x, env, None) for x in s[3][1]]
+                for (c, t), q in zip(parts, s[1][1]):
+                    if t is None and q[0] != 'id': raise TErr('untyped literal in tuple')
+                p = self.pat(s[1], ('tuple', [t for _, t in parts]), env)
+                out += self.flush() + 'let %s := %s in\n  ' % (p, '(' + ', '.join(c for c, _ in parts) + ')')
             elif s[0] == 'let':
                 ety = parse_type(s[2], self.selfty) if s[2] else None
-                c, t = self.emit(s[3], env, ety)
+                npre = len(self.pre)
+                try:
+                    c, t = self.emit(s[3], env, ety)
+                except Untyped:
+                    # `let mask = (1 << k) - 1;` : typed by the first typed use of the variable; the text (and whatever it hoists) is
+                    # produced then and stands HERE (see 'var' in emit)
+                    if ety is not None or s[1][0] != 'id': raise
+                    del self.pre[npre:]
+                    did = self.did; self.did += 1
+                    self.deferred[s[1][1]] = (did, s[3], dict(env))
+                    env[s[1][1]] = None; self.const0[s[1][1]] = False
+                    out += '\x00D%d\x00' % did
+                    i += 1
+                    continue
                 if t is None:
                     t = ety
                 if ety: self.unify(t, ety, 'let')
@@ -294,6 +386,7 @@ class LeakEmitter(Emitter):
                     out += self.set_var(pl[1], r, env) if pl[0] == 'pvar' else self.set_idx(pl[1], pl[2], r, env)
             elif s[0] == 'if' and s[2] == [('panic',)] and s[3] is None:
                 if not top or self.result is None: raise TErr('panic! outside the function body block')
+                if self.has_loop: raise TErr('guard in a function whose body has a `loop`')
                 cc, ct = self.emit(s[1], env, 'bool')
                 if ct != 'bool': raise TErr('if condition of type %s' % (ct,))
                 self.event('(ev_br %s)' % cc)
@@ -301,7 +394,7 @@ class LeakEmitter(Emitter):
                 rest = self.stmts(ss[i + 1:], env, rty, tail, top)
                 return out + 'if %s then (panic_ (%s, tr)) else\n  %s' % (cc, dummy(self.result), rest)
             elif s[0] == 'if' and len(s[2]) == 1 and s[2][0][0] == 'return' and s[3] is None:
-                if not top or rty is None: raise TErr('return outside the function body block')
+                if not top or rty is None or self.has_loop: raise TErr('return outside the function body block')
                 cc, ct = self.emit(s[1], env, 'bool')
                 if ct != 'bool': raise TErr('if condition of type %s' % (ct,))
                 self.event('(ev_br %s)' % cc)
@@ -314,7 +407,7 @@ class LeakEmitter(Emitter):
                 return out + 'if %s then (%s) else\n  %s' % (cc, inner, rest)
             elif s[0] == 'if' and len(s[2]) > 1 and s[2][-1][0] == 'return' and s[3] is None and \
                     not any(x[0] in ('return', 'while') for x in s[2][:-1]):
-                if not top or rty is None: raise TErr('return outside the function body block')
+                if not top or rty is None or self.has_loop: raise TErr('return outside the function body block')
                 cc, ct = self.emit(s[1], env, 'bool')
                 if ct != 'bool': raise TErr('if condition of type %s' % (ct,))
                 self.event('(ev_br %s)' % cc)
@@ -420,7 +513,7 @@ class LeakEmitter(Emitter):
 
 def gen_group(repo, group, sigs):
     """rs2v.gen_group for the instrumented definitions: the same two passes (signatures, then bodies), the names l_<name>"""
-    bodies = []; report = []; parsed = []
+    bodies = []; report = []; parsed = []; src_of = {}
     externs = []
     CUR_GROUP[0] = group['file']
     for f in group['fns']:
@@ -448,6 +541,7 @@ def gen_group(repo, group, sigs):
             continue
         if 'const' in f:
             key = f['impl'] + '::' + f['const']
+            src_of[key] = src
             try:
                 tsrc, esrc = find_const(src, f['const'], f['impl'])
                 cty = parse_type(tsrc, SELFTY.get(f['impl']))
@@ -457,6 +551,7 @@ def gen_group(repo, group, sigs):
                 parsed.append((f, key, None, None, None, None, str(e), None))
             continue
         key = (f['impl'] + '::' + f['name']) if f.get('impl') else f['name']
+        src_of[key] = src
         try:
             CG[0] = None
             ps, rty, body, selfty, muts, cg = translate(src, f['name'], ln, f.get('impl'), sigs, f.get('trait'))
@@ -470,6 +565,10 @@ def gen_group(repo, group, sigs):
                 else:
                     rty = pt[muts[0]] if len(muts) == 1 else ('tuple', [pt[m] for m in muts])
             if cg: FREE_GENERIC.add(key)
+            if re.search(r'\bloop\s*\{', body):
+                # a `loop`: (fuel : nat) first, the result option (value * trace); it cannot be called by translated code
+                if muts or cg or f.get('impl'): raise TErr('`loop` in a method / generic function / function with `&mut` parameters')
+                rty = ('option', rty)
             sigs[key] = (ln, [t for _, t in ps], rty)
             parsed.append((f, key, ps, rty, body, selfty, None, cg))
         except TErr as e:
@@ -482,6 +581,10 @@ def gen_group(repo, group, sigs):
         if err is None:
             try:
                 em = LeakEmitter(sigs, selfty, f.get('impl'), rty, cg, MUTS.get(key) if key in MUTRET else None)
+                FILE_ALIASES[0] = file_aliases(src_of[key])
+                inner = rty
+                if isinstance(rty, tuple) and rty[0] == 'option':
+                    em.has_loop = True; inner = rty[1]; em.result = inner
                 env = {n: t for n, t in ps if n != 'self'}
                 em.mutparams = tuple(MUTS.get(key, ()))
                 ss = P(lex(body), cgname()).block()
@@ -490,7 +593,11 @@ def gen_group(repo, group, sigs):
                 elif key in MUTS:
                     code = em.stmts(ss, env, None, '(%s)' % em.ttup(MUTS[key]), top=True)
                 else:
-                    code = em.stmts(ss, env, rty, '', top=True)
+                    code = em.stmts(ss, env, inner, '', top=True)
+                    if em.has_loop and not code.lstrip().endswith('end'): raise TErr('`loop` not at the top level of the function body')
+                for did in range(em.did):
+                    if did not in em.deferred_txt: raise TErr('`let` of an untyped integer expression that is never used at a type')
+                    code = code.replace('\x00D%d\x00' % did, em.deferred_txt[did])
                 for uid in range(em.uid):
                     if uid not in em.uninit_t: raise TErr('`let` without a value: the variable is never assigned a typed value')
                     code = code.replace('\x00U%d\x00' % uid, dummy(em.uninit_t[uid]))
@@ -500,12 +607,15 @@ def gen_group(repo, group, sigs):
                     args = '(LIMBS : nat) ' + args
                 if cg:
                     args = '(%s : nat) ' % cg + args
+                if em.has_loop:
+                    args = '(fuel : nat) ' + args
                 if f.get('impl') == 'ConstCtOption<T>':
                     args = '{T : Type} ' + args
                 args = args.rstrip()
                 what = '%s :: %s%s' % (f['src'], key, ' (associated constant)' if 'const' in f else '')
-                bodies.append('(* %s *)\nDefinition %s%s : (%s * list Z) :=\n  let tr := (nil : list Z) in\n  %s.\n'
-                              % (what, ln, ' ' + args if args else '', coq_type(rty), code))
+                rtxt = 'option (%s * list Z)' % coq_type(inner) if em.has_loop else '(%s * list Z)' % coq_type(rty)
+                bodies.append('(* %s *)\nDefinition %s%s : %s :=\n  let tr := (nil : list Z) in\n  %s.\n'
+                              % (what, ln, ' ' + args if args else '', rtxt, code))
                 report.append((key, 'ok'))
                 continue
             except TErr as e:
@@ -527,7 +637,7 @@ def leakfile(genname):
     return 'Leak' + genname[3:]
 
 # the groups of tools/rs2v_targets.json whose kernels have hand-written noninterference proofs (coq/Src/Leak<G>P.v)
-LEAK_FILES = ['Gen%s.v' % g for g in ('Prim', 'Div', 'Uint', 'Mod', 'Shift', 'Mul', 'Int', 'DivLimb', 'Monty', 'Hex', 'Bits', 'DivCt', 'Sqrt', 'Amm', 'MulMod', 'IntDiv')]
+LEAK_FILES = ['Gen%s.v' % g for g in ('Prim', 'Div', 'Uint', 'Mod', 'Shift', 'Mul', 'Int', 'DivLimb', 'Monty', 'Hex', 'Bits', 'DivCt', 'Sqrt', 'Amm', 'MulMod', 'IntDiv', 'Cmp', 'IntCmp', 'Conv', 'Wrap', 'SafeGcd')]
 
 def main():
     repo = sys.argv[1] if len(sys.argv) > 1 else '/repo'
